@@ -4,6 +4,7 @@
 # (a patch can apply textually and no longer compile after a fix: in /repo changed a line it relies on).
 cd "$(dirname "$0")/.."
 export GOFLAGS=-mod=mod GOPROXY=off GOWORK=off
+export GOCACHE=${GODICHECK_SWEEP_CACHE:-/tmp/godicheck-sweep-cache}; mkdir -p "$GOCACHE"
 one() {
   f=$1; d=$(mktemp -d /tmp/apc.XXXXXX)
   rsync -a --exclude .git /repo/ "$d/"
@@ -18,3 +19,4 @@ export -f one
 files=("$@"); [ ${#files[@]} -eq 0 ] && files=(seeded/*/patch.diff mutants/*.diff refactors/*/patch.diff repairs/*/patch.diff features/*/patch.diff)
 printf '%s\n' "${files[@]}" | xargs -P 8 -I{} bash -c 'one "$@"' _ "$(pwd)/{}" | sed "s#$(pwd)/##" | sort
 echo "applycheck: ${#files[@]} patches examined"
+rm -rf "${GODICHECK_SWEEP_CACHE:-/tmp/godicheck-sweep-cache}"
